@@ -543,6 +543,24 @@ def family_sibling_syn():
     return out
 
 
+def family_codeapp(idem):
+    """a retriable error code answered AFTER the append (REQUEST_TIMED_OUT, NOT_ENOUGH_REPLICAS[_AFTER_APPEND]) while further
+    messages of the partition wait behind the request in flight: the resend must be the same batch (idempotent: deduplicated,
+    identical sequence range), the followers must come after it, everything is reported where it was written"""
+    out = []
+    fam = "idem_clean" if idem else "codeapp"
+    for code in (7, 19, 20):
+        for nf in (1, 2):
+            # (a linger makes the first request carry both messages and lets a per-message resend re-batch with the followers)
+            cfg = dict(idem=idem, retryMax=3, leaders=[1], nbrokers=1, backoffMs=20, flushFreqMs=120)
+            pl = {"1": {"hold": True, "part": {"0": "codeapp:%d" % code}}}
+            steps = submits([(1, 0), (2, 0)]) + [{"op": "wait_req", "n": 1, "ms": 2000}] + submits([(3 + k, 0) for k in range(nf)])
+            steps += [{"op": "sleep", "ms": 40}, {"op": "release", "n": 1}, {"op": "wait_outcomes", "n": 2 + nf, "ms": 4000}]
+            steps += submits([(3 + nf, 0)]) + [{"op": "must_outcomes", "n": 3 + nf, "ms": 3000}, {"op": "close"}]
+            out.append(sc("codeapp%d-f%d-%s" % (code, nf, "idem" if idem else "plain"), fam, cfg, steps, pl))
+    return out
+
+
 def family_level_jump():
     """the partition worker jumps from retry level 0 straight to level 2 (a message fails on A and again on B, the
     level-1 chaser is long back), while a once-bounced message is still held in the retry handler and a fresh message
